@@ -7,7 +7,7 @@
 // @opts loop_bound=40 timeout_ms=10000 budget_s=300
 // @reach rk.done
 // @funcs Phreeqc::rk_kinetics
-// @bounds the real Runge-Kutta driver with one kinetic reactant whose rate law is zero order (rate r mol/s over {0.003, 0.05, 0.12, 0.25, 0.5}: below, at and above the 0.1 mol-per-step limit; initial amount m0 symbolic in [0.6,50]); time T = 1 s; -runge_kutta in {1,2,3,6}, -step_divide in {1 (default), 2, 0.05 (maximum moles per step)} by case split; tolerance 1e-8; up to 40 accepted or rejected sub-steps (a larger count is reported, not assumed away)
+// @bounds the real Runge-Kutta driver with one kinetic reactant whose rate law is zero order (rate r mol/s over {0.003, 0.05, 0.12, 0.25, 0.5, -0.05, -0.3}: below, at and above the 0.1 mol-per-step limit, and negative rates for a reactant that forms; initial amount m0 symbolic in [0.6,50]); time T = 1 s; -runge_kutta in {1,2,3,6}, -step_divide in {1 (default), 2, 0.05 (maximum moles per step)} by case split; tolerance 1e-8; up to 40 accepted or rejected sub-steps (a larger count is reported, not assumed away)
 // @oracle exact solution: the reactant amount after T is m0 - r T (never negative) and the time integrated is exactly T, whatever the integrator order and however T is cut into sub-steps, including sub-steps forced by the 0.1 mol-per-step limit
 // @stubs Phreeqc::calc_kinetic_reaction (the rate law), set_and_run_wrapper, saver, set_reaction, calc_final_kinetic_reaction, status (events); error_msg
 // @outside the equilibrium solve between stages; CVODE integrator
@@ -84,8 +84,8 @@ extern "C" void vfh_C12_rk_zero(void)
 	int rk = RK[vf_int("runge_kutta", 0, 3)];
 	double sd = SD[vf_int("step_divide_case", 0, 2)];
 	g_law = 0;
-	static const double RATE[5] = {0.003, 0.05, 0.12, 0.25, 0.5};
-	g_r = RATE[vf_int("rate_case", 0, 4)];
+	static const double RATE[7] = {0.003, 0.05, 0.12, 0.25, 0.5, -0.05, -0.3};      /* negative: the reactant forms */
+	g_r = RATE[vf_int("rate_case", 0, 6)];
 	double m0 = vf_double("m0", 0.6, 50.0), T = 1.0;
 	Phreeqc *p = mk(m0, rk, sd, 1e-8);
 	int rc = p->rk_kinetics(1, T, NOMIX, 1, 1.0);
